@@ -9,6 +9,8 @@ def explore(run, lean):
     ldseq_corr.explore(run, 600 if quick else 10000)
     # "one wake-up token per pending event when idle" also has to survive posters racing the consumer
     conc_corr.explore(run, "C16", 40 if quick else 1000, escalate=bool(lean.get("broken")))
+    conc_corr.clear_after_stop_probe(run)
+    run.fork("clear-race")
     conc_corr.explore_clear_race(run, 40 if quick else 1000)
     conc_corr.explore_posters_only(run, "C16", 60 if run.tier == "quick" else 1500)
     ao_corr.explore_timed_placement(run, "C16", 30 if run.tier == "quick" else 800)
